@@ -137,6 +137,21 @@ class Algebra:
                     out.append((at + tuple(did), v2))
                 if out:
                     return out
+        if f[0] == "call" and isinstance(f[1], str) and self.depth < 4:
+            # a private helper that returns a closure (`fn or_span_of(node) -> impl FnOnce(Error) -> Error`):
+            # the closure it builds, with the helper's parameters replaced by the call's arguments
+            S.accessor_summary(self.crate, f[1])
+            raws = self.crate["_raw_by_key"].get(f[1])
+            if raws and len(raws) == 1 and raws[0]["kind"] in ("Fn", "AssocFn") and str(raws[0].get("vis", "")).startswith("Restricted") and len(raws[0]["blocks"]) <= 6:
+                hb = Body(raws[0], self.crate)
+                hs = S.Sym(hb)
+                rets = []
+                for d in hb.defs().get(0, []):
+                    if not hb.is_cleanup(d[0]) and d[2] in ("assign", "call"):
+                        rets.append(S.strip_transparent(hs._def_expr(d, 0)))
+                if len(rets) == 1 and rets[0][0] == "closure" and hb.arg_count == len(f[2]):
+                    clo = S.subst_params(rets[0], f[2])
+                    return self.apply(clo, args)
         return [((), ("call", ("indirect", f), tuple(args)))]
 
     # expansion of one value -----------------------------------------------------------------
